@@ -5,7 +5,7 @@
 import os, sys
 sys.path.insert(0, os.path.join(os.environ.get("AIOFTP_REPO", "/repo"), "src"))
 OBLIGATION = 'aioftp.server:Server.pasv#SEQ::<unit>/exit:I7-port-ledger'
-MODEL = {'cwd!186': 'Unit("!1!")', 'u_cur_home!185': 'Unit("!0!")', 'pool_size!188': 0, 'passive_port!8': 5, 'block_size!0': 1, 'pool_size!1': 0, 'restart_offset!11': 0, 'pool_size!189': 0, 'pool_rest!189': 'Store(K(Int, 4), 5, 28100)', 'pool_cnt0': 'Store(K(Int, 4), 5, 28100)', 'user_done!13': True, 'passive_server_present!20': True, 'pool_cnt!189': 'Store(K(Int, 4), 5, 28099)', 'current_directory_done!17': True, 'user_present!12': True, 'auth_ok!28': True, 'passive_server_done!21': True, 'pool_rest!188': 'K(Int, 0)', 'pool_cnt!188': 'Store(K(Int, 0), 5, -1)', 'current_directory_present!16': True, 'logged_done!15': True, 'logged_present!14': True}
+MODEL = {'block_size!0': 1, 'pool_size!189': 0, 'restart_offset!11': 0, 'cwd!186': 'Unit("!1!")', 'u_cur_home!185': 'Unit("!0!")', 'pool_size!188': 0, 'pool_size!1': 0, 'passive_port!8': 4, 'pool_cnt0': 'Store(K(Int, 3), 4, 28100)', 'pool_rest!189': 'Store(K(Int, 3), 4, 28100)', 'user_done!13': True, 'passive_server_present!20': True, 'pool_cnt!189': 'Store(K(Int, 3), 4, 28099)', 'current_directory_done!17': True, 'user_present!12': True, 'auth_ok!28': True, 'passive_server_done!21': True, 'pool_rest!188': 'K(Int, 0)', 'pool_cnt!188': 'Store(K(Int, 0), 4, -1)', 'current_directory_present!16': True, 'logged_done!15': True, 'logged_present!14': True}
 SOLVER_NOTE = ''
 
 print("obligation", OBLIGATION, "failed; no concrete failing input could be constructed automatically")
